@@ -7,6 +7,7 @@ import UbxModel.Proofs.CfgKeysRoundtrip
 -/
 namespace C14
 open Ubx Spec
+variable [KeyTable]
 
 /-- **C14 (dichotomy).** For every byte string: `ValueError` — and no other exception — or a faithful
     decode of a prefix: the item re-encodes to the consumed bytes with the reserved key bits cleared. -/
@@ -70,6 +71,7 @@ end C14
 
 namespace C14
 open Ubx Spec
+variable [KeyTable]
 
 /-- **VALSET payload**: the 4-byte header `00 01 00 00` followed by the items' encodings in the order given -/
 theorem valset_payload (items : List CfgItem) (bs : List Nat) (h : valsetPayload items = .ok bs) :
